@@ -243,3 +243,38 @@ def production_chains():
     for i in range(len(LANG["value"])):
         walk("value", i, [])
     return chains
+
+
+def parse_statements(text):
+    """Own mini-parser of profile text: -> (statements [(path tuple, keyword, [decoded bytes args])] in source order,
+    blocks [(path tuple, number of direct children)])."""
+    toks = tokenize(text)
+    stack = []
+    counts = [0]
+    blocks = []
+    stmts = []
+    cur = []
+    for t in toks:
+        if t == "{":
+            words = [w for w in cur if not w.startswith('"')]
+            variant = [w for w in cur if w.startswith('"')]
+            counts[-1] += 1
+            stack.append((words[-1] if words else "?", variant[0] if variant else None))
+            counts.append(0)
+            cur = []
+        elif t == "}":
+            path = tuple(w for w, v in stack)
+            blocks.append((path, counts.pop()))
+            stack.pop()
+            cur = []
+        elif t == ";":
+            words = [w for w in cur if not w.startswith('"') and w != "set"]
+            args = [lit_decode(w[1:-1]) for w in cur if w.startswith('"')]
+            counts[-1] += 1
+            stmts.append((tuple(w for w, v in stack), words[0] if words else "?", args))
+            cur = []
+        else:
+            cur.append(t)
+    if stack or cur:
+        raise ValueError("unbalanced profile text")
+    return stmts, blocks
